@@ -79,6 +79,9 @@ SPEC_NAMES = {
     "urlunsplit_",
     "latin1",
     "is_ascii",
+    "call_result",
+    "given",
+    "given_value",
 }
 
 
@@ -107,7 +110,12 @@ class SpecMixin:
         a = self._b(self.ev(e.args[0], fr))
         if z3.is_false(z3.simplify(a)):
             return True
+        b0 = getattr(self, "bottoms", 0)
         b = self._b(self.ev(e.args[1], fr))
+        if getattr(self, "bottoms", 0) != b0 and self.ctx.check(a) == z3.unsat:
+            # the consequent was partial, but the antecedent cannot hold on this path anyway
+            self.bottoms = b0
+            return True
         return mk_bool(z3.Implies(a, b))
 
     def sp_iff(self, e, fr):
@@ -587,3 +595,26 @@ class SpecMixin:
             except Exception:
                 return False
         return mk_bool(s_ascii_ok(str_to_z3(v)))
+
+    def sp_call_result(self, e, fr):
+        """call_result('f'): what the (first) contract call of f returned, as it was at that time"""
+        name = e.args[0].value
+        for (n, r) in self.traces.get("results", []):
+            if not isinstance(n, str):
+                continue
+            if n == name:
+                return r
+        from .interp import BOTTOM
+
+        return BOTTOM
+
+    def _opt(self, e, fr):
+        ns = self.ev(e.args[0], fr)
+        return ns.fields[e.args[1].value]
+
+    def sp_given(self, e, fr):
+        """given(args, 'dest'): the command line option was supplied"""
+        return mk_bool(self._opt(e, fr).given)
+
+    def sp_given_value(self, e, fr):
+        return self._opt(e, fr).value
